@@ -147,7 +147,7 @@ theorem idsFresh_flush {L : Levels} {n : Nat} (runs : List Run) (hne : L ≠ [])
 structure SysInv (s : Sys) : Prop where
   valid : LayoutValid s.L
   ids : IdsFresh s.L s.nextId
-  age : L0AgeOrdered s.L
+  age : L0KeyAgeOrdered s.L
   len : 2 ≤ s.L.length
   pendingSafe : ∀ cs, s.pending = some cs → SafeCS s.L cs.rm cs.lvl cs.add ∧ ∀ i ∈ cs.rm, i < s.nextId
 
@@ -236,7 +236,7 @@ theorem sysInv_step {s s' : Sys} {a : Act} (hi : SysInv s) (hok : ActOK s a) (h 
       have hpres := safe_preserves s.nextId hi.valid hs
       obtain ⟨_, _, _, l0, D1, Lv, D2, hL, _, hshape⟩ := safe_core s.nextId hw hs
       refine ⟨hpres.2.2, idsFresh_applyCS hw hs hi.ids, ?_, ?_, ?_⟩
-      · show L0AgeOrdered (applyCS s.L s.nextId cs)
+      · show L0KeyAgeOrdered (applyCS s.L s.nextId cs)
         have hcs : applyCS s.L s.nextId cs = applyCS s.L s.nextId ⟨cs.rm, cs.lvl, cs.add⟩ := rfl
         rw [hcs, hshape]
         have := hi.age
@@ -288,23 +288,23 @@ theorem sysInv_step {s s' : Sys} {a : Act} (hi : SysInv s) (hok : ActOK s a) (h 
           have hb' : b ∈ (l0 :: D).flatten := (readOrder_mem _ b).mp hb
           rw [← hLD] at hb'
           exact hnewer _ (mkTables_run_mem (List.mem_reverse.mp ha)) b hb'
-    · show L0AgeOrdered (applyFlush s.L (mkTables s.nextId runs))
+    · show L0KeyAgeOrdered (applyFlush s.L (mkTables s.nextId runs))
       rw [hLD, applyFlush_cons]
       have hage := hi.age
       rw [hLD] at hage
-      show (l0 ++ mkTables s.nextId runs).Pairwise (fun a b => age a < age b)
+      show (l0 ++ mkTables s.nextId runs).Pairwise (fun a b => ¬ DisjointKeys a.run b.run → age a < age b)
       have hrne : ∀ r ∈ runs, r ≠ [] := fun r hr => (hruns r hr).1
       refine List.pairwise_append.mpr ⟨hage, ?_, ?_⟩
       · have : ((mkTables s.nextId runs).map (·.run)).Pairwise
             (fun older newer => ∀ e ∈ newer, ∀ e' ∈ older, e'.seq < e.seq) := by
           rw [mkTables_map_run]; exact hpw
         refine List.Pairwise.imp_of_mem ?_ (List.pairwise_map.mp this)
-        intro a b ha hb hab
+        intro a b ha hb hab _
         obtain ⟨ea, hea, hage_a⟩ := age_mkTables_head ha hrne
         obtain ⟨eb, heb, hage_b⟩ := age_mkTables_head hb hrne
         rw [hage_a, hage_b]
         exact hab eb heb ea hea
-      · intro a ha b hb
+      · intro a ha b hb _
         obtain ⟨eb, heb, hage_b⟩ := age_mkTables_head hb hrne
         rw [hage_b]
         have ha' : a ∈ s.L.headD [] := by rw [hLD]; exact ha
